@@ -115,6 +115,8 @@ def run(repo: Repo, ctx, grammar_modules=None, rule_prefix='C01',
         ctx.not_decided = ['parenthesisation sufficiency per operator pair',
                            'whitespace / token fusion between sub-trees',
                            'byte-identical second print']
+    global _REPO_FOR_ENUMS
+    _REPO_FOR_ENUMS = repo
     gm = grammar_modules or GRAMMAR
     gen = repo.cls(f'{QLCG}.EdgeQLSourceGenerator')
     fr = V.FieldReads(repo, owner=gen)
@@ -360,6 +362,9 @@ def run(repo: Repo, ctx, grammar_modules=None, rule_prefix='C01',
     enum_member_rule(repo, ctx, gen, gm, 'C01.R9')
     # ---- R10 prefix operations as left operands keep their parentheses ------------
     prefix_left_operand_rule(repo, ctx, gen, 'C01.R10')
+    detached_operand_rule(repo, ctx, gen, 'C01.R10')
+    # ---- R11 clause order follows the grammar -----------------------------------
+    clause_order_rule(repo, ctx, gen, 'C01.R11')
 
     # ---- R4 (shared with C18) --------------------------------------------------
     from . import c18
@@ -423,6 +428,21 @@ def _is_static_name(e: ast.AST) -> bool:
 
 
 _UNK = object()
+_REPO_FOR_ENUMS = None
+
+
+def _enum_const(e: ast.AST):
+    """value of `pkg.Enum.MEMBER` when Enum is a repo class whose MEMBER is
+    assigned a constant"""
+    d = dotted(e)
+    if not d or d.count('.') < 1 or _REPO_FOR_ENUMS is None:
+        return _UNK
+    cls, mem = d.split('.')[-2:]
+    cands = [c for q, c in _REPO_FOR_ENUMS.classes.items()
+             if q.endswith('.' + cls) and mem in c.assign_fields]
+    vals = {c.assign_fields[mem].value for c in cands
+            if isinstance(c.assign_fields[mem], ast.Constant)}
+    return vals.pop() if len(vals) == 1 else _UNK
 
 
 def _tv(test, p, consts):
@@ -451,10 +471,13 @@ def _tv(test, p, consts):
     if isinstance(test, ast.Compare) and len(test.ops) == 1 and isinstance(
             test.left, ast.Attribute) and isinstance(
                 test.left.value, ast.Name) and test.left.value.id == p \
-            and isinstance(test.comparators[0], ast.Constant):
+            and (isinstance(test.comparators[0], ast.Constant)
+                 or _enum_const(test.comparators[0]) is not _UNK):
         f = test.left.attr
         if f in consts:
-            c = test.comparators[0].value
+            c = test.comparators[0].value if isinstance(
+                test.comparators[0], ast.Constant) else _enum_const(
+                test.comparators[0])
             v = consts[f]
             op = test.ops[0]
             if isinstance(op, ast.Is):
@@ -831,6 +854,26 @@ def quote_sink_rule(repo: Repo, ctx, gen, rule: str) -> None:
         raise AnalysisError(f'{rule}: quoting visitors not found ({n})')
 
 
+def detached_operand_rule(repo: Repo, ctx, gen, rule: str) -> None:
+    """DETACHED binds tighter than path steps (P_DETACHED above P_DOT)."""
+    pm = repo.module('edb.edgeql.parser.grammar.precedence')
+    order = [c.name for c in pm.tree.body if isinstance(c, ast.ClassDef)]
+    if 'P_DOT' not in order or 'P_DETACHED' not in order:
+        raise AnalysisError(f'{rule}: P_DOT / P_DETACHED not found')
+    tighter = order.index('P_DETACHED') > order.index('P_DOT')
+    vd = gen.methods.get('visit_DetachedExpr')
+    if vd is None:
+        raise AnalysisError(f'{rule}: visit_DetachedExpr not found')
+    t = norm(vd.node)
+    wraps = 'qlast.Path' in t and "self.write('(')" in t and \
+        "self.write(')')" in t
+    ctx.ob(rule, 'visit_DetachedExpr:path-operand', wraps or not tighter,
+           'DETACHED binds tighter than `.` in the grammar but '
+           'visit_DetachedExpr prints a multi-step path operand bare: '
+           '`DETACHED Foo.bar` re-parses as (DETACHED Foo).bar', vd.loc,
+           sample='DETACHED (Foo.bar)')
+
+
 def enum_member_rule(repo: Repo, ctx, gen, gm, rule: str) -> None:
     """If the grammar sets node.F to members of an enum and the visitor only
     *compares* node.F with members (never prints its value), every member
@@ -955,13 +998,19 @@ def prefix_left_operand_rule(repo: Repo, ctx, gen, rule: str) -> None:
             h = gen.methods.get(c.func.attr)
             if h is None:
                 continue
-            for t in ast.walk(h.node):
-                if isinstance(t, ast.If) and 'UnaryOp' in norm(t.test):
-                    w = [norm(x.args[0]) for b in t.body for x in ast.walk(b)
-                         if isinstance(x, ast.Call) and norm(x.func) ==
-                         'self.write' and x.args]
-                    if "'('" in w and "')'" in w:
-                        wraps = True
+            from .. import shapes as SH
+            hp = SH.param(h.node, 0)
+            # the test is the isinstance call itself: a further condition
+            # (only symbolic operators, ...) leaves some prefix operators
+            # bare
+            for names, t in SH.isinstance_arms(h.node, hp):
+                if 'UnaryOp' not in names:
+                    continue
+                w = [norm(x.args[0]) for b in t.body for x in ast.walk(b)
+                     if isinstance(x, ast.Call) and norm(x.func) ==
+                     'self.write' and x.args]
+                if "'('" in w and "')'" in w:
+                    wraps = True
         ok = self_paren or (not direct and wraps)
         ctx.ob(rule, f'{name}:left-operand', ok,
                f'{name} prints its left operand bare and visit_UnaryOp does '
@@ -969,3 +1018,43 @@ def prefix_left_operand_rule(repo: Repo, ctx, gen, rule: str) -> None:
                f'read back as -(a ^ 2), NOT (a ?? b) because the prefix '
                f'operator has lower precedence', f.loc,
                sample='left operand wrapped when it is a UnaryOp')
+
+
+def clause_order_rule(repo: Repo, ctx, gen, rule: str) -> None:
+    """CREATE <object> <name> [EXTENDING ...] [IF NOT EXISTS]: wherever a
+    production has both clauses, the printer emits them in that order."""
+    ctx.floor(rule, 1)
+    gm = repo.module('edb.edgeql.parser.grammar.ddl')
+    orders = set()
+    import re
+    for n in ast.walk(gm.tree):
+        txt = None
+        if isinstance(n, ast.FunctionDef) and n.name.startswith('reduce_'):
+            txt = n.name + ' ' + (ast.get_docstring(n) or '')
+        if txt and 'Extending' in txt and 'IfNotExists' in txt:
+            orders.add(txt.index('Extending') < txt.index('IfNotExists'))
+    if not orders:
+        raise AnalysisError(f'{rule}: no production with EXTENDING and IF '
+                            f'NOT EXISTS found')
+    if orders != {True}:
+        raise AnalysisError(f'{rule}: productions disagree on the order')
+    co = gen.methods.get('_visit_CreateObject')
+    if co is None:
+        raise AnalysisError(f'{rule}: _visit_CreateObject not found')
+    g = CFG(co.node)
+    an = [n.id for n in g.nodes if any(norm(c.func) == 'after_name'
+                                       for c in g.node_calls(n))]
+    ine = [n.id for n in g.nodes if any(
+        'IF NOT EXISTS' in norm(c) for c in g.node_calls(n))]
+    if not an or not ine:
+        raise AnalysisError(f'{rule}: after_name / IF NOT EXISTS writes of '
+                            f'_visit_CreateObject not found')
+    # no path on which IF NOT EXISTS is written and after_name() follows
+    late = [a for a in an if any(a in g.reachable([i]) for i in ine)]
+    ctx.ob(rule, '_visit_CreateObject:extending-before-if-not-exists',
+           not late,
+           '_visit_CreateObject writes IF NOT EXISTS before the after_name '
+           'hook (which prints EXTENDING for roles): the grammar has '
+           'EXTENDING first, so `create role r if not exists extending a` '
+           'is rejected by the parser', co.loc,
+           sample='after_name() precedes IF NOT EXISTS')
